@@ -3,7 +3,7 @@
    Models: Model/ExprSyntax.v (tokens, precedence-ladder parser of expr/parser.go, printer),
            Model/ExprEval.v (evaluateNodeValue / ...WithNull / evaluateBoolNode / compareValues / CASE),
            Model/Sem.v (reference semantics of the statement). *)
-From SV Require Import Model.Sem Proofs.ExprParseProofs Proofs.ExprEvalProofs.
+From SV Require Import Model.Sem Proofs.ExprParseProofs Proofs.ExprEvalProofs Proofs.ExprPadProofs.
 
 (* precedence and parentheses: the parser reads back exactly the tree the printer wrote, where the
    printer inserts only the parentheses the ladder OR < AND < comparison < + - < * / % < ^ < unary -
@@ -54,6 +54,27 @@ Theorem C06_case_first_true : forall row ws els,
 Proof. exact case_first_true. Qed.
 Print Assumptions C06_case_first_true.
 
+(* lpad / rpad: the documented value.  A string that is long enough is returned unchanged; otherwise
+   the result has exactly n bytes, keeps the string at its end (lpad) / start (rpad), and byte i of the
+   filling is byte (i mod |pad|) of the pad - for every pad length and every gap, multiple or not *)
+Theorem C06_pad_documented_value : forall (left : bool) (s : bytes) (n : nat) (pad : bytes),
+  (n <= length s -> pad_value left s n pad = s)%nat /\
+  (length s < n ->
+     exists fill, pad_value left s n pad = (if left then fill ++ s else s ++ fill) /\
+       length fill = n - length s /\
+       length (pad_value left s n pad) = n /\
+       (pad <> [] -> forall (i : nat) (d : byte), i < n - length s -> nth i fill d = nth (i mod length pad) pad d))%nat.
+Proof. exact pad_value_spec. Qed.
+Print Assumptions C06_pad_documented_value.
+
+(* ... and it is what a call evaluates to in the model of the engine (and hence, by
+   C06_eval_agrees_sem, in the reference semantics) *)
+Theorem C06_pad_call : forall (left : bool) (s : bytes) (n : nat) (pad : bytes),
+  fn_call (if left then nm_lpad else nm_rpad) [VStr s; VNum (inject_Z (Z.of_nat n)); VStr pad]
+  = FOk (VStr (pad_value left s n pad)).
+Proof. exact fn_call_pad. Qed.
+Print Assumptions C06_pad_call.
+
 (* ---- where the code violates the statement (findings; witnesses replayed on the real engine) ---- *)
 Definition col_a : bytes := [97]%N.
 Definition case_a_gt_2 : xetop :=
@@ -86,3 +107,10 @@ Example C06_example :
   /\ xparse (xprint (ETop e)) = Some (xelab (ETop e))
   /\ has_null_col [(col_b, VNum 1)] (EBin OAdd (ECol col_a) (ECol col_b)) = true.
 Proof. vm_compute. repeat split; reflexivity. Qed.
+
+(* lpad('hello', 8, 'ab') = 'abahello' (gap 3, pad of 2 bytes), rpad('hello', 6, 'xyz') = 'hellox' *)
+Example C06_pad_example :
+  let hello := [104;101;108;108;111]%N in
+  sem_top [] (ETop (ECall nm_lpad [EStr hello; ENum 8; EStr [97;98]%N])) = Some (VStr ([97;98;97]%N ++ hello)) /\
+  sem_top [] (ETop (ECall nm_rpad [EStr hello; ENum 6; EStr [120;121;122]%N])) = Some (VStr (hello ++ [120]%N)).
+Proof. vm_compute. split; reflexivity. Qed.
